@@ -18,7 +18,10 @@ def flatten(lhs, tree, depth=0):
     t = tree
     if t[0] == "agg" and depth < 3 and t[1] not in ("Option", "Result", "tuple", "array", "repeat") \
             and not t[1].startswith("closure") and t[3]:
-        yield (lhs, ("const", "%s::%s" % (t[1], t[2])) if t[2] else ("const", t[1]))
+        if t[2] and t[2] != t[1]:
+            # an enum variant: which variant is stored is itself a fact; a plain struct literal is exactly the
+            # stores of its fields (`*ds = DS { a, b }` and `ds.a = a; ds.b = b` give the same table)
+            yield (lhs, ("const", "%s::%s" % (t[1], t[2])))
         for f, sub in t[3]:
             name = lhs if f.isdigit() else "%s.%s" % (lhs, f)
             for x in flatten(name, sub, depth + 1):
